@@ -274,12 +274,24 @@ class UAIReader(object):
             model.add_nodes_from(self.variables)
             model.add_edges_from(self.edges)
 
+            # The columns of each table follow the parent order of the function scope (which
+            # lists the parents in reverse, then the child), not the order in which the edges
+            # happen to come out of the edge set.
+            parsed = self.grammar.parseString(self.network)
+            parents_of = {}
+            for function in range(0, self.no_functions):
+                scope = parsed["fun_" + str(function)]
+                if isinstance(scope, int):
+                    scope = [scope]
+                scope = ["var_" + str(var) for var in scope]
+                parents_of[scope[-1]] = scope[:-1][::-1]
+
             tabular_cpds = []
             for child_var, values in self.tables:
                 states = int(self.domain[child_var])
                 values = np.fromiter(values, dtype=float)
                 values = values.reshape(states, values.size // states)
-                parents = list(model.predecessors(child_var))
+                parents = parents_of[child_var]
                 if len(parents) == 0:
                     tabular_cpds.append(TabularCPD(child_var, states, values))
                 else:
